@@ -56,6 +56,9 @@ Scenario(i) ==
     [] i = 25 -> [init |-> <<10, 0>>, ops |-> <<Op("set", 1, 11), Op("open", 1, 0)>>]
     [] i = 27 -> [init |-> <<0, 0>>, ops |-> <<Op("set", 1, 11), Op("set", 1, 12)>>]
     [] i = 28 -> [init |-> <<10, 0>>, ops |-> <<Op("set", 1, 11), Op("set", 1, 12)>>]
+    \* a membership test (on a key with a history), after which that process keeps its handle and stays idle while
+    \* another process stores a different key
+    [] i = 29 -> [init |-> <<10, 0>>, ops |-> <<Op("contains", 1, 0), Op("set", 2, 21)>>]
     [] OTHER -> [init |-> <<0, 0>>, ops |-> <<Op("len", 1, 0)>>]
 Sc == Scenario(SCEN)
 NP == Len(Sc.ops)
